@@ -392,6 +392,59 @@ enum PayloadSpec {
     NonVerbose(u32, Vec<u8>),
 }
 
+/// Pairs of different texts of equal length that collide under a common 32-bit string hash (FNV-1a, FNV-1, djb2, sdbm,
+/// the 31-multiplier hash, CRC-32), found by a birthday search over 400 000 six-letter words when first needed: inputs
+/// for code that recognises a text by its hash.
+pub fn colliding_texts() -> &'static Vec<(String, String)> {
+    static TABLE: std::sync::OnceLock<Vec<(String, String)>> = std::sync::OnceLock::new();
+    TABLE.get_or_init(|| {
+        let word = |mut n: u32| -> [u8; 6] {
+            let mut w = [b'a'; 6];
+            for c in w.iter_mut().rev() {
+                *c = b'a' + (n % 26) as u8;
+                n /= 26;
+            }
+            w
+        };
+        let hashes: [fn(&[u8]) -> u32; 6] = [
+            |b| b.iter().fold(0x811c_9dc5u32, |h, c| (h ^ *c as u32).wrapping_mul(0x0100_0193)),
+            |b| b.iter().fold(0x811c_9dc5u32, |h, c| h.wrapping_mul(0x0100_0193) ^ *c as u32),
+            |b| b.iter().fold(5381u32, |h, c| h.wrapping_mul(33).wrapping_add(*c as u32)),
+            |b| b.iter().fold(0u32, |h, c| (*c as u32).wrapping_add(h << 6).wrapping_add(h << 16).wrapping_sub(h)),
+            |b| b.iter().fold(0u32, |h, c| h.wrapping_mul(31).wrapping_add(*c as u32)),
+            |b| {
+                !b.iter().fold(!0u32, |mut h, c| {
+                    h ^= *c as u32;
+                    for _ in 0..8 {
+                        h = if h & 1 != 0 { (h >> 1) ^ 0xedb8_8320 } else { h >> 1 };
+                    }
+                    h
+                })
+            },
+        ];
+        let mut out = vec![];
+        for hf in hashes {
+            let mut seen: std::collections::HashMap<u32, u32> = std::collections::HashMap::with_capacity(400_000);
+            let mut found = 0;
+            for n in 0..400_000u32 {
+                // (spread the words over the whole six-letter space)
+                let k = n.wrapping_mul(769) % 308_915_776;
+                let h = hf(&word(k));
+                if let Some(prev) = seen.insert(h, k) {
+                    if prev != k {
+                        out.push((String::from_utf8_lossy(&word(prev)).to_string(), String::from_utf8_lossy(&word(k)).to_string()));
+                        found += 1;
+                        if found >= 4 {
+                            break;
+                        }
+                    }
+                }
+            }
+        }
+        out
+    })
+}
+
 fn arg_list(large: bool, elem: BoxedStrategy<RArg>) -> BoxedStrategy<Vec<RArg>> {
     let list = if large {
         prop_oneof![40 => vec(elem.clone(), 0..8), 4 => vec(elem.clone(), 8..40), 1 => vec(elem.clone(), 200..=255), 1 => vec(elem, 254..=255)].boxed()
@@ -408,8 +461,24 @@ fn arg_list(large: bool, elem: BoxedStrategy<RArg>) -> BoxedStrategy<Vec<RArg>> 
                     continue;
                 }
                 let mut c = args[i - 1].clone();
-                match (t / 9) % 8 {
+                match (t / 9) % 9 {
                     0 => {}
+                    8 => {
+                        // two different texts that collide under a common string hash, in the same role of both neighbours
+                        let table = colliding_texts();
+                        if !table.is_empty() {
+                            let (a, b2) = table[(t as usize / 81 + i) % table.len()].clone();
+                            if let (RVal::Str(_), Some(prev)) = (&c.val, args.get_mut(i - 1)) {
+                                prev.val = RVal::Str(a);
+                                c.val = RVal::Str(b2);
+                            } else if c.name.is_some() {
+                                if let Some(prev) = args.get_mut(i - 1) {
+                                    prev.name = Some(a);
+                                }
+                                c.name = Some(b2);
+                            }
+                        }
+                    }
                     // relations between neighbours that differ: only the unit, only the scaling, a name that extends the
                     // predecessor's name, a repeat of the first argument behind a different one
                     4 => {
